@@ -539,6 +539,7 @@ func (w *dworld) localWith(ri int, cs dcall) {
 		w.c.Violate("C03", "document-failed-call-left-operations", fmt.Sprintf("the failing call %s queued %d operations", cs.desc, len(r.pending())-nb), w.desc)
 	}
 	w.c.Count("doc-local")
+	w.checkIdentifiers(r)
 	if !ok {
 		w.c.Count("doc-local-invalid")
 	}
@@ -547,6 +548,94 @@ func (w *dworld) localWith(ri int, cs dcall) {
 		obs = "OFail"
 	}
 	w.evs = append(w.evs, fmt.Sprintf("ELocal %s %s %s %s 0%%Z", gNat(ri), cs.gal, obs, r.gView()))
+}
+
+// checkIdentifiers reads the exported node table of a replica's Document and checks that it is a tree over distinct
+// identifiers (C15): every child reference of a live container (object member, array slot) names a node of the table
+// whose parent is that container, no node is referenced twice, and the order identifiers of an array are distinct
+func (w *dworld) checkIdentifiers(r *drep) {
+	_, snap, err := r.dt.GetMetaAndSnapshot()
+	if err != nil {
+		return
+	}
+	var doc struct {
+		NM []struct {
+			C json.RawMessage `json:"c"`
+			T string          `json:"t"`
+			P json.RawMessage `json:"p"`
+			D json.RawMessage `json:"d"`
+			A *struct {
+				N [][2]json.RawMessage `json:"n"`
+			} `json:"a"`
+			O *struct {
+				M map[string]json.RawMessage `json:"m"`
+			} `json:"o"`
+		} `json:"nm"`
+	}
+	if json.Unmarshal(snap, &doc) != nil {
+		return
+	}
+	key := func(raw json.RawMessage) string {
+		var m map[string]interface{}
+		if len(raw) == 0 || json.Unmarshal(raw, &m) != nil || m == nil {
+			return ""
+		}
+		b, _ := json.Marshal(m)
+		return string(b)
+	}
+	parentOf := map[string]string{}
+	for _, n := range doc.NM {
+		parentOf[key(n.C)] = key(n.P)
+	}
+	referencedBy := map[string]string{}
+	bad := func(sig, what string) {
+		w.c.Violate("C15", sig, what, w.desc)
+	}
+	for _, n := range doc.NM {
+		self := key(n.C)
+		ref := func(child, slot string) bool {
+			if child == "" {
+				return true
+			}
+			if prev, dup := referencedBy[child]; dup {
+				bad("document-identifier-shared", fmt.Sprintf("the element identified by %s is referenced twice: by %s and by %s of container %s (two distinct elements share one identifier)", child, prev, slot, self))
+				return false
+			}
+			referencedBy[child] = self + " " + slot
+			if p, known := parentOf[child]; known && p != self {
+				bad("document-identifier-shared", fmt.Sprintf("container %s holds %s under %s, but the node with that identifier belongs to %s (two distinct elements share one identifier)", self, child, slot, p))
+				return false
+			}
+			return true
+		}
+		if n.O != nil {
+			ks := make([]string, 0, len(n.O.M))
+			for k := range n.O.M {
+				ks = append(ks, k)
+			}
+			sort.Strings(ks)
+			for _, k := range ks {
+				if !ref(key(n.O.M[k]), "member "+k) {
+					return
+				}
+			}
+		}
+		if n.A != nil {
+			orders := map[string]bool{}
+			for i, pair := range n.A.N {
+				o := key(pair[0])
+				if orders[o] {
+					bad("document-array-order-identifier-shared", fmt.Sprintf("array %s holds two slots with the order identifier %s", self, o))
+					return
+				}
+				orders[o] = true
+				if !ref(key(pair[1]), fmt.Sprintf("slot %d", i)) {
+					return
+				}
+			}
+		}
+	}
+	w.c.Count("doc-identifiers-checked")
 }
 
 func (w *dworld) tx(ri int) {
